@@ -7,7 +7,7 @@ the virtual clock (DESIGN.md B.2).
 
 from __future__ import annotations
 
-from simkit import gemenv, refcodec as rc
+from simkit import facades, gemenv, refcodec as rc
 
 PROP = "C07"
 SHRINK = ("ops",)
@@ -17,7 +17,8 @@ BUDGET = {
     "thorough": {"runs": 200_000, "wall": 1500, "chunk": 100, "minimise": 250},
 }
 REQUIRED_PROBES = {"quick": ("commack_refused", "attempt_unanswered", "inbound_s1f13", "link_lost", "disable",
-                             "message_while_not_communicating", "stale_s1f14"),
+                             "message_while_not_communicating", "stale_s1f14", "transport_secsi",
+                             "message_queued_across_disable"),
                    "thorough": ("commack_refused", "attempt_unanswered", "inbound_s1f13", "link_lost", "disable",
                                 "message_while_not_communicating", "stale_s1f14", "s1f14_near_t3")}
 EVIDENCE = {
@@ -46,12 +47,13 @@ SCHEDS = [
 ]
 OPS = ["answer_ok", "answer_ok", "answer_refuse", "answer_stale", "answer_unknown", "no_answer", "send_s1f13",
        "send_s1f13", "primary", "primary_user", "wait_short", "wait_t3m", "wait_t3p", "wait_delay", "wait_long",
-       "link_lost", "cycle", "check"]
+       "link_lost", "cycle", "check", "slow_then_disable"]
 
 
 def gen_plan(rng, tier, index):
     ops = [[rng.choice(OPS), rng.choice([0, 1, 2])] for _ in range(rng.choice([2, 4, 6, 10, 16, 24]))]
     plan = {"role": rng.choice(["equipment", "host"]), "active": rng.random() < 0.35, "ops": ops,
+            "transport": rng.choice(["hsms", "hsms", "hsms", "secsi"]),
             "t3": rng.choice([1.0, 3.0]), "delay": rng.choice([1, 4]), "first": rng.choice(["ok", "ok", "refuse", "none"]),
             "latency": rng.choice([0.0, 0.0005, 0.01])}
     sched = dict(rng.choice(SCHEDS))
@@ -76,13 +78,23 @@ def run(sim, plan):
     role = plan["role"]
     T3, DELAY = plan["t3"], plan["delay"]
     sim.make_net(latency=plan["latency"])
-    env = gemenv.GemEnv(sim, role=role, active=plan["active"], t3=T3, delay=DELAY,
+    transport = plan.get("transport", "hsms")
+    secsi = transport == "secsi"
+    line = sim.make_line(a="SIMA", b="SIMB") if secsi else None
+    if secsi:
+        sim.probe("transport_secsi")
+    env = gemenv.GemEnv(sim, role=role, active=plan["active"], t3=T3, delay=DELAY, transport=transport, line=line,
                         **({"initial_control_state": "EQUIPMENT_OFFLINE"} if role == "equipment" else {}))
     handler = env.handler
     user_calls = []
+    slow = {"on": False}
 
     def user_cb(_h, _m):
         user_calls.append((k.now, env.comm_state))
+        if slow["on"]:
+            slow["on"] = False
+            facades.time_facade.sleep(1.0)   # a slow application callback: later messages queue up behind it
+            return None                      # (the primary carried no W-bit: nothing to answer)
         return sf.SecsS02F26(b"\x01")
 
     handler.register_stream_function(2, 25, user_cb)
@@ -138,6 +150,8 @@ def run(sim, plan):
 
     def check(where):
         """R1/R3/R4 at a quiescent point."""
+        if secsi and env.hp.peer.contentions:
+            sim.inconclusive("SECS-I ENQ contention between the endpoint's retry and a peer message (outside the statement)")
         st = env.comm_state
         if st == "COMMUNICATING" and not ep["established"]:
             why = "after link loss / disable, without a new exchange" if ep.get("lost") else \
@@ -226,6 +240,8 @@ def run(sim, plan):
             peer.send_primary(1, 13, body, True, system=system)
             wait(0.2)
             out = peer.replies(system)
+            if secsi and env.hp.peer.contentions:
+                sim.inconclusive("SECS-I ENQ contention (outside the statement)")
             near_t3 = any(c["epoch"] == ep["n"] and abs((c["t"] + T3) - k.now) < 0.5 for c in ep["cr_sent"])
             if state_before in ("WAIT_CRA", "COMMUNICATING") and len(out) != 1 and not (
                     state_before == "WAIT_CRA" and near_t3 and not out):
@@ -258,7 +274,7 @@ def run(sim, plan):
         elif op == "check":
             check(op)
         elif op == "link_lost":
-            if not link_up:
+            if not link_up or secsi:
                 continue
             sim.probe("link_lost")
             nontrivial = True
@@ -293,12 +309,60 @@ def run(sim, plan):
             if st != "DISABLED" and st == "COMMUNICATING":
                 sim.violation("C07.R3", "COMMUNICATING after disable()", sig="C07.R3|communicating-after-disable")
             en = {"done": False}
+            if secsi:
+                new_epoch()   # the serial peer object persists: a re-enabled port is a new link
 
             def enable():
                 handler.enable()
                 en["done"] = True
 
             sim.spawn(enable, "app_enable", role="app")
+            sim.wait_until(lambda: en["done"], 10)
+            hist.append("enable")
+            peer = env.connect(timeout=10)
+            if peer is None:
+                sim.inconclusive("link could not be re-established after disable/enable")
+            ep["lost"] = False
+            hist.append("selected")
+            wait(0.05)
+        elif op == "slow_then_disable":
+            # two application messages back to back, the first one with a slow callback; the handler is disabled while
+            # the second one still waits in the dispatcher: it must not reach a callback after the state was left
+            if not link_up or env.comm_state != "COMMUNICATING":
+                continue
+            sim.probe("message_queued_across_disable")
+            nontrivial = True
+            slow["on"] = True
+            n_user = len(user_calls)
+            peer.send_primary(2, 25, rc.b(1), False)
+            peer.send_primary(2, 25, rc.b(2), False)
+            wait(0.3)
+            call = {"done": False}
+
+            def dis2():
+                handler.disable()
+                call["done"] = True
+
+            sim.spawn(dis2, "app_disable", role="app")
+            if not sim.wait_until(lambda: call["done"], 40):
+                sim.inconclusive("disable() did not return")
+            ep["lost"] = True
+            ep["established"] = False
+            wait(1.5)
+            late = [c for c in user_calls[n_user + 1:]]
+            if any(st != "COMMUNICATING" for _t, st in late):
+                sim.violation("C07.R4", f"a message that was queued behind a slow callback was handed to the user callback "
+                              f"after disable() (communication state at the call: {[st for _t, st in late]})",
+                              sig="C07.R4|callback-after-disable")
+            en = {"done": False}
+            if secsi:
+                new_epoch()
+
+            def enable2():
+                handler.enable()
+                en["done"] = True
+
+            sim.spawn(enable2, "app_enable", role="app")
             sim.wait_until(lambda: en["done"], 10)
             hist.append("enable")
             peer = env.connect(timeout=10)
@@ -348,4 +412,4 @@ def run(sim, plan):
             env.comm_state != "COMMUNICATING":
         sim.violation("C07.R2", "no S1F13 was ever sent on the current link", sig="C07.R2|no-attempt")
     sim.nontrivial = nontrivial
-    sim.abstract = (role, [o for o, _ in plan["ops"]][:14], T3, DELAY, plan["sched"]["policy"], plan["first"])
+    sim.abstract = (role, transport, [o for o, _ in plan["ops"]][:14], T3, DELAY, plan["sched"]["policy"], plan["first"])
